@@ -17,8 +17,19 @@ KINDS = ["linear", "lattice", "lattice", "ensemble_explicit", "ensemble_random",
 def feature_desc(draw, idx, lattice_size, allow_categorical=True):
   name = "f%d" % idx
   if allow_categorical and draw(st.integers(0, 9)) < 3:
-    nb = draw(st.integers(2, 4))
-    pairs = draw(S.dag_pairs(nb, max_edges=3, allow_duplicates=False))
+    nb = draw(st.integers(2, 5))
+    if nb >= 3 and draw(st.integers(0, 3)) == 0:
+      # Dense order: (a subset of) all pairs of a random total order, listed
+      # in a random order, so that transitively implied "shortcut" pairs come
+      # before, between or after the chains they shortcut.
+      order = draw(st.permutations(list(range(nb))))
+      full = [[order[a], order[b]] for a in range(nb) for b in range(a + 1, nb)]
+      full = draw(st.permutations(full))
+      keep = draw(st.lists(st.integers(0, 4), min_size=len(full),
+                           max_size=len(full)))
+      pairs = [p for p, k in zip(full, keep) if k > 0]
+    else:
+      pairs = draw(S.dag_pairs(nb, max_edges=4, allow_duplicates=False))
     if not pairs and draw(st.integers(0, 3)) > 0:
       a = draw(st.integers(0, nb - 1))
       b = draw(st.integers(0, nb - 2))
